@@ -8,6 +8,7 @@ mod eng_c14;
 mod eng_c17;
 mod eng_c19;
 mod eng_c13;
+mod eng_hdr;
 mod eng_c20;
 
 use vcore::common::Cfg;
@@ -29,6 +30,8 @@ fn main() {
         "C01" => eng_wire::run(&cfg, eng_wire::Mode::C01),
         "C02" => eng_wire::run(&cfg, eng_wire::Mode::C02),
         "C03" => eng_wire::run(&cfg, eng_wire::Mode::C03),
+        "C05" => eng_hdr::run_c05(&cfg),
+        "C06" => eng_hdr::run_c06(&cfg),
         "C07" => eng_c07::run(&cfg),
         "C08" => eng_c08::run(&cfg),
         "C13" => eng_c13::run(&cfg),
